@@ -41,6 +41,7 @@ type pool struct {
 	held      atomic.Int32  // calls blocked in mNever
 	hanging   atomic.Int32  // calls blocked in mHangCtx (until their context is done)
 	pcalls    map[*pcall]struct{}
+	faulty    func(kind string) bool
 	clockSlot func() uint64
 	inflight  atomic.Int32  // calls inside a double that are not held
 	mu        sync.Mutex
@@ -120,6 +121,9 @@ func (p *pool) do(ctx context.Context, what string, key uint64, idx int) error {
 	p.calls.Add(1)
 	pc := p.enter(ctx, what, idx)
 	defer p.exit(pc)
+	if what == "attestationdata" && p.faulty != nil && p.faulty("att-data") {
+		return errors.New("scripted: no attestation data available")
+	}
 	m := p.modeFor(what, key, idx)
 	if m == mHangCtx {
 		// the node accepted the request and does not answer; only the caller can end it
@@ -296,14 +300,23 @@ func (n *node) AggregateAttestation(ctx context.Context, opts *api.AggregateAtte
 
 type sink struct {
 	attestations, syncMessages, contributions, subscriptions atomic.Int64
+	faulty                                                   func(kind string) bool
 }
 
+func (s *sink) fails(kind string) bool { return s.faulty != nil && s.faulty(kind) }
+
 func (s *sink) SubmitAttestations(_ context.Context, a []*phase0.Attestation) error {
+	if s.fails("att-submit") {
+		return errors.New("scripted submission failure")
+	}
 	s.attestations.Add(int64(len(a)))
 	return nil
 }
 
 func (s *sink) SubmitSyncCommitteeMessages(_ context.Context, m []*altair.SyncCommitteeMessage) error {
+	if s.fails("sync-message") {
+		return errors.New("scripted submission failure")
+	}
 	s.syncMessages.Add(int64(len(m)))
 	return nil
 }
@@ -314,6 +327,9 @@ func (s *sink) SubmitSyncCommitteeContributions(_ context.Context, c []*altair.S
 }
 
 func (s *sink) SubmitBeaconCommitteeSubscriptions(_ context.Context, b []*apiv1.BeaconCommitteeSubscription) error {
+	if s.fails("subscription") {
+		return errors.New("scripted subscription failure")
+	}
 	s.subscriptions.Add(int64(len(b)))
 	return nil
 }
@@ -328,6 +344,7 @@ type fakeSigner struct {
 	// onAttest is told the slot when the attester asks for its signatures, which it
 	// does on the goroutine of the attestation job, i.e. while that job executes.
 	onAttest func(slot uint64)
+	faulty   func(kind string) bool
 }
 
 func sigOf(parts ...[]byte) phase0.BLSSignature {
@@ -350,6 +367,9 @@ func (f fakeSigner) SignBeaconAttestations(_ context.Context, accounts []e2wtype
 	blockRoot phase0.Root, _ phase0.Epoch, _ phase0.Root, _ phase0.Epoch, _ phase0.Root) ([]phase0.BLSSignature, error) {
 	if f.onAttest != nil {
 		f.onAttest(uint64(slot))
+	}
+	if f.faulty != nil && f.faulty("att-sign") {
+		return nil, errors.New("scripted signing failure")
 	}
 	res := make([]phase0.BLSSignature, len(accounts))
 	for i, a := range accounts {
